@@ -47,7 +47,7 @@ func checkC13(r *core.Run, p *core.Program) {
 			got := table[rt][ev]
 			ok := false
 			for _, w := range want {
-				if w == got {
+				if sameEffect(got, []string{w}) {
 					ok = true
 				}
 			}
